@@ -1,4 +1,5 @@
 import ProbLogProofs.Lemmas.UnifyMgu
+import ProbLogProofs.Lemmas.UnifyModel
 /-!
 # C14 — unification is sound and complete syntactic unification (property theorems only)
 
@@ -107,8 +108,75 @@ Full statement wanted (C14 for the code): for all terms `T1 T2` over the variabl
     `outs = []` when `mgu T1 T2 = clash`,
   and an `.error .occurs` or `outs = []` when `mgu T1 T2 = occurs`.
 This is **false** for the current code; see `C14_eqBuiltin_sharing_refuted` and `C14_eqBuiltin_cyclic_refuted`.
-What is proved for the model: `C14_unifyValue_complete_partial` below.
+What is proved for the model: the *completeness half* at the level of success/failure, for all inputs
+(`C14_unifyValue_complete_partial`, `C14_builtinEq_complete_partial`, `C14_unifyValue_fail_agrees_mgu_partial`).
 -/
+
+/-- **Model of `unify_value`, completeness half** (partial): if `θ` unifies the two values and respects the
+    bindings already in `source_values`, the model of `unify_value` raises neither `UnifyError` nor `OccursCheck`
+    (it can only run out of the model's fuel), the updated dictionary is still respected by `θ`, and the returned
+    value has the same `θ`-instance as the inputs.  (`None` is a constant for `subst`; on terms without anonymous
+    variables `hθ` says exactly "θ is a unifier".) -/
+theorem C14_unifyValue_complete_partial (n : Nat) (s t : Tm) (sv : Dict) (θ : Int → Tm)
+    (hθ : s.subst θ = t.subst θ)
+    (hsv : ∀ x v, sv.find (some x) = some v → v.isAnon = false → θ x = v.subst θ) :
+    unifyValue n s t sv ≠ .error .unify ∧ unifyValue n s t sv ≠ .error .occurs ∧
+    ∀ r sv', unifyValue n s t sv = .ok (r, sv') →
+      (∀ x v, sv'.find (some x) = some v → v.isAnon = false → θ x = v.subst θ) ∧
+      (s.isAnon = false → r.subst θ = s.subst θ) ∧ (t.isAnon = false → r.subst θ = t.subst θ) := by
+  have h := (uv_good θ n).1 s t sv (Or.inr (Or.inr hθ)) hsv
+  cases hr : unifyValue n s t sv with
+  | error e =>
+    rw [hr] at h
+    have : e = .fuel := h
+    subst this
+    refine ⟨by simp, by simp, by simp⟩
+  | ok p =>
+    obtain ⟨r, sv'⟩ := p
+    rw [hr] at h
+    refine ⟨by simp, by simp, ?_⟩
+    intro r' sv'' e
+    simp only [Except.ok.injEq, Prod.mk.injEq] at e
+    obtain ⟨rfl, rfl⟩ := e
+    exact ⟨h.1, h.2.2.2.1, h.2.2.2.2⟩
+
+/-- **`_builtin_eq` / `_builtin_neq`, completeness half** (partial): on unifiable arguments `=`/2 has exactly one
+    result (never the empty list, never `OccursCheck`) whose `θ`-instance is that of the arguments, and `\=`/2 is
+    false — up to the model's fuel. -/
+theorem C14_builtinEq_complete_partial (n : Nat) (s t : Tm) (θ : Int → Tm) (hθ : s.subst θ = t.subst θ) :
+    ((∃ r, builtinEq n s t = .ok [[r, r]] ∧ (s.isAnon = false → r.subst θ = s.subst θ)) ∨
+      builtinEq n s t = .error .fuel) ∧
+    (builtinNeq n s t = .ok false ∨ builtinNeq n s t = .error .fuel) := by
+  have h := (uv_good θ n).1 s t [] (Or.inr (Or.inr hθ)) (by intro x v hf; simp [Dict.find] at hf)
+  unfold builtinEq builtinNeq
+  cases hr : unifyValue n s t [] with
+  | error e =>
+    rw [hr] at h
+    have : e = .fuel := h
+    subst this
+    exact ⟨Or.inr rfl, Or.inr rfl⟩
+  | ok p =>
+    obtain ⟨r, sv'⟩ := p
+    rw [hr] at h
+    exact ⟨Or.inl ⟨r, rfl, h.2.2.2.1⟩, Or.inl rfl⟩
+
+/-- Consequently (partial agreement with the reference): whenever the model of `unify_value` fails or raises
+    `OccursCheck`, the reference does not return a unifier, whatever its fuel. -/
+theorem C14_unifyValue_fail_agrees_mgu_partial (n m : Nat) (s t : Tm)
+    (h : unifyValue n s t [] = .error .unify ∨ unifyValue n s t [] = .error .occurs) (σ : Subst) :
+    mguFuel m [(s, t)] ≠ some (.unifier σ) := by
+  intro hm
+  have hs := C14_mgu_sound m s t σ hm
+  rw [apply_eq_subst, apply_eq_subst] at hs
+  have := C14_unifyValue_complete_partial n s t [] σ.fn hs (by intro x v hf; simp [Dict.find] at hf)
+  rcases h with h | h
+  · exact this.1 h
+  · exact this.2.1 h
+
+example : unifyValue 10 (g (.var (-1)) (f (.var (-1)))) (g (.var (-2)) (.var (-3))) []
+    = .ok (g (.var (-1)) (f (.var (-1))), [(some (-2), .var (-1)), (some (-3), f (.var (-1)))]) := by rfl
+example : unifyValue 10 (g (.var (-2)) (.var (-2))) (g (.var (-1)) (f (.var (-1)))) [] = .error .occurs := by rfl
+example : unifyValue 10 (.const (.int 1)) (.const (.flt "1.0")) [] = .error .unify := by rfl
 
 /-- Refutation (lost variable sharing in `unify_call_return`): for `q(V1,V2,V3) :- g(V3,f(V1)) = g(V1,V2)` the
     model of the engine answers `q(A, f(B), A)` although the most general unifier gives `q(X, f(X), X)`. -/
